@@ -1252,6 +1252,10 @@ func (x *Exec) externMethod(o *Object, name string, args []Value) Value {
 	switch {
 	case o.Name == "extern:crypto/rand.Reader" && name == "Read":
 		return x.randFill(args[0].(SliceV))
+	case strings.HasPrefix(o.Name, "extern:file:") && name == "Read":
+		return x.fileFill(o, args[0].(SliceV))
+	case strings.HasPrefix(o.Name, "extern:file:") && name == "Close":
+		return IfaceV{}
 	case name == "Error":
 		return x.mkStr([]Atom{{K: AOpq, S: "errtext:" + o.Name}})
 	}
@@ -1506,4 +1510,106 @@ func (x *Exec) yieldPoint() {
 	if x.sched != nil {
 		x.sched.yield(x)
 	}
+}
+
+// ---------------------------------------------------------------- process environment (configuration is an input)
+
+func (x *Exec) envString(name string) Value {
+	key := "env:" + name
+	found := false
+	for _, in := range x.inputs {
+		if in.Name == key {
+			found = true
+		}
+	}
+	if !found {
+		x.inputs = append(x.inputs, Input{Name: key, Kind: "env", Terms: []*Term{x.opqEmptyVar(key)}})
+	}
+	return &SymStr{A: []Atom{{K: AOpq, S: key}}}
+}
+
+// opqEmptyVar: the free Boolean "this opaque text is empty".
+func (x *Exec) opqEmptyVar(name string) *Term {
+	h := sha256sum([]byte(name))
+	return Var(fmt.Sprintf("empty_%x", h[:6]), 0)
+}
+
+func osGetenv(x *Exec, fn *ssa.Function, a []Value) Value {
+	name, ok := a[0].(string)
+	if !ok {
+		panic(unsupported("os.Getenv with symbolic name"))
+	}
+	v := x.envString(name)
+	if fn.Name() == "LookupEnv" {
+		return TupleV{v, x.fresh("envset", 0)}
+	}
+	return v
+}
+
+var osFileType types.Type
+
+func (x *Exec) osFileT() types.Type {
+	if osFileType != nil {
+		return osFileType
+	}
+	for _, p := range x.P.Prog.AllPackages() {
+		if p.Pkg.Path() == "os" {
+			if o := p.Pkg.Scope().Lookup("File"); o != nil {
+				osFileType = types.NewPointer(o.Type())
+			}
+		}
+	}
+	return osFileType
+}
+
+func osOpen(x *Exec, fn *ssa.Function, a []Value) Value {
+	// the file system is environment: opening may succeed or fail
+	if x.branch(x.fresh("open_ok", 0)) {
+		x.fileN++
+		o := x.externObj(fmt.Sprintf("file:%d", x.fileN))
+		return TupleV{Ptr{Obj: o}, IfaceV{}}
+	}
+	return TupleV{Ptr{}, IfaceV{T: externType("os.PathError"), V: Ptr{Obj: x.externObj("os.PathError")}}}
+}
+
+func osReadFile(x *Exec, fn *ssa.Function, a []Value) Value {
+	if x.branch(x.fresh("readfile_ok", 0)) {
+		x.fileN++
+		n := 64
+		arr := &ArrV{Elems: make([]Value, n)}
+		for i := range arr.Elems {
+			arr.Elems[i] = Var(fmt.Sprintf("file%d_%d", x.fileN, i), 8)
+		}
+		o := x.newObj("os.ReadFile", nil, arr)
+		return TupleV{SliceV{Obj: o, Off: BVi(0, 64), Len: BVi(int64(n), 64), Cap: BVi(int64(n), 64)}, IfaceV{}}
+	}
+	return TupleV{SliceV{Off: BVi(0, 64), Len: BVi(0, 64), Cap: BVi(0, 64)}, IfaceV{T: externType("os.PathError"), V: Ptr{Obj: x.externObj("os.PathError")}}}
+}
+
+func init() {
+	intrinsicTab["os.Getenv"] = osGetenv
+	intrinsicTab["os.LookupEnv"] = osGetenv
+	intrinsicTab["os.Open"] = osOpen
+	intrinsicTab["os.OpenFile"] = osOpen
+	intrinsicTab["os.ReadFile"] = osReadFile
+	intrinsicTab["(*os.File).Close"] = func(x *Exec, fn *ssa.Function, a []Value) Value { return IfaceV{} }
+	intrinsicTab["(*os.File).Read"] = func(x *Exec, fn *ssa.Function, a []Value) Value {
+		p := a[0].(Ptr)
+		if p.Obj == nil {
+			return TupleV{BVi(0, 64), IfaceV{T: externType("os.ErrInvalid"), V: Ptr{Obj: x.externObj("os.ErrInvalid")}}}
+		}
+		return x.fileFill(p.Obj, a[1].(SliceV))
+	}
+}
+
+// fileFill: a file delivers arbitrary bytes (full read).
+func (x *Exec) fileFill(o *Object, sl SliceV) Value {
+	n := int(x.concretize(sl.Len, "length of buffer read from file").Int64())
+	for i := 0; i < n; i++ {
+		x.fileBytes++
+		b := Var(fmt.Sprintf("%s_b%d", sanitize(o.Name), x.fileBytes), 8)
+		x.store(Ptr{Obj: sl.Obj, Path: []Sel{{Idx: Add(sl.Off, BVi(int64(i), 64))}}}, b)
+	}
+	x.callLog = append(x.callLog, fmt.Sprintf("%s.Read(%d)", o.Name, n))
+	return TupleV{BVi(int64(n), 64), IfaceV{}}
 }
